@@ -110,3 +110,6 @@ Proof.
   - destruct l as [|a l]; [rewrite !skipn_nil; reflexivity|].
     rewrite Nat.add_succ_r. cbn [skipn]. apply IH.
 Qed.
+
+Lemma drop_last_one {A} (l : list A) x : drop_last 1 (l ++ [x]) = l.
+Proof. change 1%nat with (length [x]). apply drop_last_app. Qed.
